@@ -29,6 +29,7 @@ import (
 	"strconv"
 	"strings"
 	"sync"
+	"time"
 
 	"github.com/creachadair/mds/distinct"
 	"verif/harness/internal/tr"
@@ -325,14 +326,39 @@ func mkPolicy(r *tr.Rand, coin, pass int) policy {
 }
 
 type gen struct {
-	o *tr.Opts
-	r *tr.Rand
-	w *tr.W
+	o    *tr.Opts
+	r    *tr.Rand
+	w    *tr.W
+	hung bool
 }
 
 func (g *gen) emit(cp int, ops []op, pol policy, pre []uint64, extra ...string) info {
 	src := &source{script: pre, gen: pol.gen}
-	orc, out, inf := runCase(cp, ops, src)
+	var orc, out string
+	var inf info
+	if cp <= 0 {
+		// With a size <= 0 the halving condition Len >= size is always true.  The pinned code runs one
+		// pass and goes on; a repaired (looping) Add never returns, not even drawing words once the
+		// buffer is empty.  Run these cases under a watchdog; after the first hang skip the family.
+		if g.hung {
+			g.w.Count("size<=0-skipped-after-hang", 1)
+			return inf
+		}
+		done := make(chan struct{})
+		go func() {
+			orc, out, inf = runCase(cp, ops, src)
+			close(done)
+		}()
+		select {
+		case <-done:
+		case <-time.After(3 * time.Second):
+			g.hung = true
+			g.w.Count("size<=0-hang", 1)
+			return info{}
+		}
+	} else {
+		orc, out, inf = runCase(cp, ops, src)
+	}
 	nt, tags := inf.tags(cp)
 	g.w.Case("H "+strconv.Itoa(cp)+" "+fmtWords(src.used)+" "+orc+" "+fmtOps(ops), out, nt, append(tags, extra...)...)
 	return inf
@@ -405,7 +431,7 @@ func (g *gen) run() {
 	}
 
 	// 4. random histories
-	n := g.o.Scale(12000, 300000)
+	n := g.o.Scale(12000, 200000)
 	for i := 0; i < n; i++ {
 		cp := 1 + r.Intn(8)
 		switch {
